@@ -2,8 +2,8 @@ import importlib.util, os
 _p = os.path.join(os.path.dirname(os.path.dirname(os.path.abspath(__file__))), "C07", "plan.py")
 _s = importlib.util.spec_from_file_location("plan_C07_for_C12", _p); _m = importlib.util.module_from_spec(_s); _s.loader.exec_module(_m)
 PLAN = dict(
-    id="C12", api_files=['tracing-subscriber/src/reload.rs'], level="other", explanation="Handle::modify / reload: a handle whose layer is gone returns the CollectorGone error, runs nothing and rebuilds nothing; otherwise the closure runs exactly once under the write lock, the lock is RELEASED before callsite::rebuild_interest_cache is called, that function is called exactly once and already sees the new value; afterwards every callback of the reloadable layer / filter (max_level_hint, register_callsite, enabled, event_enabled, callsite_enabled, on_event) is FORWARDED to the new value - each reaches it exactly once and the old value never, for layers whose static interest, dynamic verdict and hint are independent - for all old/new values; the log crate's max level is republished once, after the rebuild. rebuild_interest_cache itself is replaced by a recording stub here; its contract (re-establishes the cache invariant from arbitrary cached bytes) is C01's. Interleavings with emissions on other threads are not decided.",
-    functions_under_contract=['tracing-subscriber/src/reload.rs: Handle::{modify,reload,clone_current,with_current}, impl Subscribe / Filter for reload::Subscriber (read lock per callback)'],
+    id="C12", api_files=['tracing-subscriber/src/reload.rs'], level="other", explanation="Handle::modify / reload: a handle whose layer is gone returns the CollectorGone error, runs nothing and rebuilds nothing; otherwise the closure runs exactly once under the write lock, the lock is RELEASED before callsite::rebuild_interest_cache is called, that function is called exactly once and already sees the new value; afterwards every callback of the reloadable layer / filter (max_level_hint, register_callsite, enabled, event_enabled, callsite_enabled, on_event) is FORWARDED to the new value - each reaches it exactly once and the old value never, for layers whose static interest, dynamic verdict and hint are independent - for all old/new values; the log crate's max level is republished once, after the rebuild. rebuild_interest_cache itself is replaced by a recording stub here; its contract (re-establishes the cache invariant from arbitrary cached bytes) is C01's. Interleavings with emissions on other threads are not decided. Added after seed C12-3: the span-lifecycle callbacks of a reloadable per-layer filter reach exactly their namesake of the NEW value once.",
+    functions_under_contract=['reload.rs: impl Filter for reload::Subscriber - on_new_span / on_enter / on_exit / on_close / on_record each forwarded to its namesake of the current value', 'tracing-subscriber/src/reload.rs: Handle::{modify,reload,clone_current,with_current}, impl Subscribe / Filter for reload::Subscriber (read lock per callback)'],
     trusted_base=['tracing_log::log::set_max_level replaced by a recording stub (called once, after the rebuild): the real one writes a static that Kani 0.68 aliases with the constant LevelFilter::TRACE', "Kani 0.68 / CBMC 6.11 / CaDiCaL; Kani's std build (nightly-2026-08-21), not the repo toolchain's", 'core::fmt::Formatter::pad stubbed to Ok(()) with -Z stubbing (panic-message formatting on infeasible error branches; no harness that uses it reads formatted text)', 'cfg(kani) thread_local! shim and once_cell::sync::Lazy contract stub (see overlay_additions)', 'tracing_core::callsite::rebuild_interest_cache stubbed by a recording function (its contract is discharged under C01)'],
     assumptions=['RwLock exclusion: a callback evaluates entirely under one read guard, hence entirely old or entirely new (std)', "composition with C01: after rebuild_interest the cached interest of every registered callsite and MAX_LEVEL are those of the live collectors' CURRENT answers"],
     not_covered=['an emission racing with the reload (interleavings)', 'end-to-end run through the real global registry (too expensive for CBMC, see C01)'],
